@@ -21,7 +21,7 @@ use unic_locale::extensions::{ExtensionType, ExtensionsMap};
 use unic_locale::subtags::{Language, Region, Script, Variant};
 use unic_locale::{LanguageIdentifier, Locale};
 
-pub const RULE: &str = "Domain: the C03 byte-string space (bounded-exhaustive token sequences over the full boundary alphabet to 3 | 4 subtags, 'en-' + locale alphabet to 4 | 5, 'en-' + core alphabet to 6 | 7; proptest G2 well-formed locales, G3 near misses, G4 weighted raw bytes; G5 CLDR names with extension suffixes), each input fed to every text-accepting entry point of both crates (parsers, canonicalize, subtag constructors, ExtensionsMap, ==&str, every extension getter/setter with the whole input and with each of its subtags as key/value/attribute/tag on an empty, a populated and the parsed extension list, serde_json when built with serde), Display/Debug of every result forced; megabyte-scale inputs for the bounded-time clause; all 256 bytes through ExtensionType::from_byte; and (language, script, region) triples over the CLDR subtag universe plus unknown representatives through likelysubtags::maximize/minimize and character_direction (stratified | exhaustive). Oracle: no panic (hook records file:line), no worker death, heartbeat keeps advancing. Non-trivial = the input is not a plain well-formed language identifier (an error path or an extension path is exercised); for triples: at least one component present. Enumerated cases distinct by construction; generated ones counted through a hash set.";
+pub const RULE: &str = "Domain: the C03 byte-string space (bounded-exhaustive token sequences over the full boundary alphabet to 3 | 4 subtags, 'en-' + locale alphabet to 4 | 5, 'en-' + core alphabet to 6 | 7; proptest G2 well-formed locales, G3 near misses, G4 weighted raw bytes; G11 long and huge locales with 20-150 entries per list; G5 CLDR names with extension suffixes), each input fed to every text-accepting entry point of both crates (parsers, canonicalize, subtag constructors, ExtensionsMap, ==&str, every extension getter/setter with the whole input and with each of its subtags as key/value/attribute/tag on an empty, a populated and the parsed extension list, serde_json when built with serde), Display/Debug of every result forced; megabyte-scale inputs for the bounded-time clause; all 256 bytes through ExtensionType::from_byte; and (language, script, region) triples over the CLDR subtag universe plus unknown representatives through likelysubtags::maximize/minimize and character_direction (stratified | exhaustive). Oracle: no panic (hook records file:line), no worker death, heartbeat keeps advancing. Non-trivial = the input is not a plain well-formed language identifier (an error path or an extension path is exercised); for triples: at least one component present. Enumerated cases distinct by construction; generated ones counted through a hash set.";
 
 const CHUNK: u64 = 4096;
 
